@@ -28,7 +28,7 @@ INV = {"strings": "S_Sound S_RejectsBad S_ReEncode S_TableJustified S_CodeConfor
 
 # (curve, format, family, expected): expected None = every invariant holds; otherwise the set of invariants one of
 # which TLC must report (the configuration models a defect of the code / a format that cannot satisfy C13 as stated)
-P61_DEFECT = {"E_RoundTrip", "E_Injective", "E_EncSem", "S_TableJustified", "S_CodeConforms", "S_ReEncode", "M_RoundTrip", "M_Conforms", "M_ReEncode", "M_Canonical"}
+P61_DEFECT = {"S_Sound", "M_Sound", "E_RoundTrip", "E_Injective", "E_EncSem", "S_TableJustified", "S_CodeConforms", "S_ReEncode", "M_RoundTrip", "M_Conforms", "M_ReEncode", "M_Canonical"}
 MONT = {"E_RoundTrip", "E_Injective", "S_ReEncode", "M_RoundTrip", "M_ReEncode", "M_Canonical", "E_NoPanic", "E_EncSem", "S_TableJustified",
         "E_RoundTripModSign", "E_InjectiveModSign"}
 MC_SMALL = [
